@@ -332,6 +332,7 @@ let conn_mode ?(tlsmode=false) cases out =
              | ["dinit"; v] -> c.dinit <- (v = "1")
              | ["clientcert"; _] -> ()
              | ["bighello"; _] -> ()
+             | ["wcap"; _] -> ()
              | ["auth"; "ok"] -> c.auth <- None
              | ["auth"; v] -> (match split_colon v with ["rej"; tag] -> c.auth <- Some (n_of_dec tag) | _ -> fail_parse ("bad auth " ^ v))
              | _ -> fail_parse ("bad cfg " ^ kv)
